@@ -128,14 +128,19 @@ def _is_reject(c):
 
 
 def judge(chk, cases, res, harness):
-    """a case that the specification declares outside the domain must be REPORTED: FEAT does that by aborting with its
-    FATAL ERROR banner (serial: SIGABRT, under mpirun: MPI_Abort -> exit code 1).  Anything else - returning, another signal,
-    a silent exit - is left to the standard judgement as a disagreement."""
+    """Cases that the specification declares OUTSIDE the domain of the property (a combined file of another process count, a
+    truncated / extended / damaged file, a pack type outside the class of the data, an unsupported checkpoint file name) are
+    replayed to see what the implementation does, but C05 makes no statement about them (it is a round-trip property, not a
+    rejection property): FEAT reports most of them by aborting with its FATAL ERROR banner; whatever happens is only COUNTED
+    (extra: out_of_domain_reported / out_of_domain_not_reported), never judged."""
     out = []
     for c, r in zip(cases, res):
-        if _is_reject(c) and r.get("ok") is None and (r.get("outcome") == "abort" or str(r.get("outcome", "")).startswith("exit")) \
-                and "FATAL ERROR" in (r.get("stderr") or ""):
-            out.append({"ok": True, "rejected": True})
+        if _is_reject(c):
+            rep = r.get("ok") is None and (r.get("outcome") == "abort" or str(r.get("outcome", "")).startswith("exit")) \
+                and "FATAL ERROR" in (r.get("stderr") or "")
+            k = "out_of_domain_reported" if rep else "out_of_domain_not_reported"
+            chk.extra[k] = chk.extra.get(k, 0) + 1
+            out.append({"ok": True, "rejected": rep})
         else:
             out.append(r)
     vlib.judge_results(chk, cases, out, sig, keyf=key, harness=harness, nontrivial=nontrivial)
